@@ -550,7 +550,7 @@ func runC11(seed int64, tier string, out string) {
 	r := rand.New(rand.NewSource(seed))
 	meta := newMeta("C11", seed)
 	meta.Rule = "programs generated from one seeded PRNG over t1..t3 (existing), n1/n2 (created), nosuch: SELECTs, effective and no-op UPDATE/INSERT/DELETE, CREATE TABLE (+INSERT), COMMIT, ROLLBACK; endings: success, syntax error, missing table (read/update), division by zero inside SELECT / UPDATE / CREATE TABLE AS SELECT, duplicate CREATE, EXIT, wait timeout (-w 0.15) against a hand-made .lock / .rlock / .temp of a competing holder, and SIGINT/SIGTERM/SIGQUIT injected by strace at the N-th call of a system call class (a spread of N in the quick tier, every N in the thorough tier); read-only programs additionally compare bytes and mtimes of every data file. Each run of build/csvq is one case; it is non-trivial when the run issued at least one mutating call on the repository; distinct = distinct (program, ending, injection point, observed trace) tuples."
-	w := &shardWriter{dir: out, prop: "C11", max: 200, meta: meta,
+	w := &shardWriter{dir: out, prop: "C11", max: 120, meta: meta,
 		header: "From Coq Require Import NArith List.\nRequire Import Csvq.Model.Base Csvq.Model.Fs Csvq.Model.Commit Csvq.Model.Cleanup Csvq.Harness.H11.\nOpen Scope list_scope.\n",
 		footer: func(ls []string) string {
 			return "Definition M := Eval vm_compute in (check_c11 cases).\nPrint M.\n"
@@ -558,14 +558,14 @@ func runC11(seed int64, tier string, out string) {
 	sc := newScratch()
 	defer sc.Close()
 
-	plain := map[string]int{"success": 14, "readonly": 8, "syntax": 3, "missread": 5, "missupd": 5, "readerr": 5, "upderr": 6,
-		"createerr": 4, "dupcreate": 6, "exit": 6, "timeout": 16}
-	nSig, nSigRO, spread := 6, 3, 9
+	plain := map[string]int{"success": 30, "readonly": 14, "syntax": 3, "missread": 8, "missupd": 8, "readerr": 8, "upderr": 10,
+		"createerr": 8, "dupcreate": 10, "exit": 10, "timeout": 30}
+	nSig, nSigRO, spread := 10, 4, 10
 	if tier == "thorough" {
 		for k := range plain {
-			plain[k] *= 8
+			plain[k] *= 10
 		}
-		nSig, nSigRO, spread = 24, 8, 0
+		nSig, nSigRO, spread = 60, 20, 0
 	}
 	var scen []string
 	for k := range plain {
